@@ -254,7 +254,7 @@ def task_error(kind, x):
     return UnicodeDecodeError("utf-8", b"boom-%d" % x, 0, 1, "boom-%s" % x)
 
 
-def run_case(n, par, max_tasks, fail_ids, tolerate, choices, consumer_delays, use_run=False, max_steps=None, unpicklable_ids=(), fail_kind=0, callback=None):
+def run_case(n, par, max_tasks, fail_ids, tolerate, choices, consumer_delays, use_run=False, max_steps=None, unpicklable_ids=(), fail_kind=0, callback=None, gen_task=False):
     """runs Parallel(f).irun(range(n)) under the schedule; returns a dict describing the outcome"""
     import annet.parallel as P
     logging.disable(logging.CRITICAL)
@@ -286,12 +286,21 @@ def run_case(n, par, max_tasks, fail_ids, tolerate, choices, consumer_delays, us
             return {"value": x * 2 + 1, "render": (lambda: x)}   # a container holding something that cannot be pickled
         return x * 2 + 1
 
+    if gen_task:
+        plain_f = f
+
+        def f(x):   # noqa: F811  - the production workers are generator functions: their body (and its exception) runs when consumed
+            yield plain_f(x)
+
     out = {"delivered": [], "raised": None, "bound": False, "run_result": None}
     with _lock:
         P.mp, P.time, P.os = fake.mp, fake.time, _FakeOs()
         try:
             pool = P.Parallel(f).tune(parallel=par, max_tasks=max_tasks)
-            if callback:
+            if callback and callback.get("progress_logger"):
+                from annet.api import PoolProgressLogger    # what api.gen/diff/patch register for --show-hosts-progress
+                pool.add_callback(PoolProgressLogger({i: "h%d" % i for i in range(n)}))
+            elif callback:
                 bad = set(callback["raise_for"])
 
                 def cb(_pool, tr):
